@@ -15,6 +15,100 @@ variable {P C : Type} [DecidableEq P] [DecidableEq C]
 theorem baseOf_congr (s T : State P C) (h : T.arch = s.arch) (p : P) : baseOf T p = baseOf s p := by
   unfold baseOf; rw [h]
 
+/-- the state a killed run leaves is at worst a BENIGN clash for the next run -/
+theorem benign_of_crashInv (le : P → P → Bool)
+    (trans : ∀ a b c, le a b → le b c → le a c) (total : ∀ a b, le a b || le b a)
+    (antisymm : ∀ a b, le a b → le b a → a = b) (ge : C → C → Bool) (cname : P → C → P) (s : State P C)
+    (nnc : NoNameClash ge cname s.A s.B (bisyncPlan le s))
+    (done todo : List (P × Action)) (hplan : bisyncPlan le s = done ++ todo)
+    (T : State P C) (harch : T.arch = s.arch)
+    (inv : CrashInv ge cname s.A s.B (bisyncPlan le s) done T.A T.B) :
+    BenignClash ge cname T.A T.B (bisyncPlan le T) := by
+  obtain ⟨hactS, hliveS, hndS, hrestS⟩ := plan_facts le trans total antisymm s
+  obtain ⟨hactT, hliveT, hndT, hrestT⟩ := plan_facts le trans total antisymm T
+  have uniqS := act_unique (bisyncPlan le s) hndS
+  have hsub : ∀ x, x ∈ done → x ∈ bisyncPlan le s := fun x hx => by rw [hplan]; exact List.mem_append_left _ hx
+  -- a path of the plan is live before the run, hence no conflict-copy name of the run
+  have notCC_of_planS : ∀ p act, (p, act) ∈ bisyncPlan le s →
+      ∀ p' act', (p', act') ∈ bisyncPlan le s → ccName ge cname p' act' (get s.A p') (get s.B p') ≠ some p := by
+    intro p act hm p' act' hm' hc
+    obtain ⟨n1, n2⟩ := nnc.notLive p' act' p hm' hc
+    rcases hliveS p act hm with h | h
+    · exact h n1
+    · exact h n2
+  -- K: two different contents at a path of the crash state: the crashed run has not touched it
+  have K : ∀ p xa yb, get T.A p = some xa → get T.B p = some yb → xa ≠ yb →
+      (∀ act, (p, act) ∉ done) ∧
+      (∀ p' act', (p', act') ∈ bisyncPlan le s → ccName ge cname p' act' (get s.A p') (get s.B p') ≠ some p) ∧
+      get T.A p = get s.A p ∧ get T.B p = get s.B p := by
+    intro p xa yb eA eB hne
+    have h1 : ∀ act, (p, act) ∉ done := by
+      intro act hm
+      obtain ⟨a1, b1⟩ := inv.atPath p act hm
+      have := resolve_eq ge (get s.A p) (get s.B p) (baseOf s p) act (hactS p act (hsub _ hm))
+      rw [← a1, ← b1, eA, eB] at this
+      exact hne (Option.some.inj this)
+    have h2 : ∀ p' act', (p', act') ∈ bisyncPlan le s → ccName ge cname p' act' (get s.A p') (get s.B p') ≠ some p := by
+      intro p' act' hm' hc
+      by_cases hd : (p', act') ∈ done
+      · obtain ⟨xa', yb', _, _, a1, b1⟩ := inv.atCopy p' act' p hd hc
+        rw [eA] at a1; rw [eB] at b1
+        exact hne ((Option.some.inj a1).trans (Option.some.inj b1).symm)
+      · obtain ⟨xa', yb', e1, e2, _, _⟩ := ccName_some ge cname p' act' _ _ p hc
+        obtain ⟨w1, w2⟩ := inv.weak p' act' p xa' yb' hm' hd hc e1 e2
+        rw [eA] at w1; rw [eB] at w2
+        rcases w1 with w1 | w1
+        · cases w1
+        · rcases w2 with w2 | w2
+          · cases w2
+          · exact hne ((Option.some.inj w1).trans (Option.some.inj w2).symm)
+    have hnt : ¬ touched ge cname s.A s.B done p := by
+      rintro (⟨a', h'⟩ | ⟨p', a', h', hc⟩)
+      · exact h1 a' h'
+      · exact h2 p' a' (hsub _ h') hc
+    obtain ⟨u1, u2⟩ := inv.untouched p hnt h2
+    exact ⟨h1, h2, u1, u2⟩
+  -- L2: a conflict entry of the recovery plan is a pending conflict entry of the crashed run
+  have L2 : ∀ p act ln, (p, act) ∈ bisyncPlan le T → ccName ge cname p act (get T.A p) (get T.B p) = some ln →
+      (p, act) ∈ bisyncPlan le s ∧ (p, act) ∉ done ∧ get T.A p = get s.A p ∧ get T.B p = get s.B p := by
+    intro p act ln hm hc
+    obtain ⟨xa, yb, eA, eB, hne, _, _⟩ := conflict_entry_differs le T trans total antisymm ge cname p act ln hm hc
+    obtain ⟨k1, _, k3, k4⟩ := K p xa yb eA eB hne
+    refine ⟨?_, k1 act, k3, k4⟩
+    obtain ⟨_, m2, m3⟩ := (mem_plan_iff le T p act).mp hm
+    rw [mem_plan_iff]
+    refine ⟨Or.inl (by rw [← k3, eA]; simp), ?_, m3⟩
+    rw [m2, k3, k4, baseOf_congr s T harch]
+  -- L2': a pending entry of the crashed run is an entry of the recovery plan, with the same contents
+  have L2' : ∀ p act, (p, act) ∈ bisyncPlan le s → (p, act) ∉ done →
+      (p, act) ∈ bisyncPlan le T ∧ get T.A p = get s.A p ∧ get T.B p = get s.B p := by
+    intro p act hm hnd
+    have hnc := notCC_of_planS p act hm
+    have hnt : ¬ touched ge cname s.A s.B done p := by
+      rintro (⟨a', h'⟩ | ⟨p', a', h', hc⟩)
+      · have : a' = act := uniqS p a' act (hsub _ h') hm
+        subst this; exact hnd h'
+      · exact hnc p' a' (hsub _ h') hc
+    obtain ⟨u1, u2⟩ := inv.untouched p hnt hnc
+    obtain ⟨m1, m2, m3⟩ := (mem_plan_iff le s p act).mp hm
+    refine ⟨?_, u1, u2⟩
+    rw [mem_plan_iff]
+    refine ⟨by rw [u1, u2]; exact m1, ?_, m3⟩
+    rw [u1, u2, baseOf_congr s T harch]; exact m2
+  -- the recovery run's clash, if any, is benign
+  have bc : BenignClash ge cname T.A T.B (bisyncPlan le T) := by
+    refine ⟨?_, ?_⟩
+    · intro p act ln xa yb hm hc eA eB
+      obtain ⟨hmS, hndS', k3, k4⟩ := L2 p act ln hm hc
+      rw [k3, k4] at hc
+      exact inv.weak p act ln xa yb hmS hndS' hc (by rw [← k3]; exact eA) (by rw [← k4]; exact eB)
+    · intro p act p' act' ln hm hm' hc hc'
+      obtain ⟨hmS, _, k3, k4⟩ := L2 p act ln hm hc
+      obtain ⟨hmS', _, k3', k4'⟩ := L2 p' act' ln hm' hc'
+      rw [k3, k4] at hc; rw [k3', k4'] at hc'
+      exact nnc.distinct p act p' act' ln hmS hmS' hc hc'
+  exact bc
+
 theorem recovery_from_crashInv (le : P → P → Bool)
     (trans : ∀ a b c, le a b → le b c → le a c) (total : ∀ a b, le a b || le b a)
     (antisymm : ∀ a b, le a b → le b a → a = b) (ge : C → C → Bool) (cname : P → C → P) (s : State P C)
